@@ -22,7 +22,7 @@ TRUSTED = ["model: Heap.copyWith driven by Gen.Copy.table (lean/Srctools/Model/H
            "replaced by a constant because they are fresh by design)",
            "in-place mutations are assumed to write only to objects reachable from the mutated object (checked per case by "
            "the frame request: changed locations vs reach of the other side)"]
-NOT_MODELLED = ["copy options keep_vis=False / des_id / side_mapping / group_mapping (defaults are used)",
+NOT_MODELLED = ["copy options: keep_vis=False is covered by the direct search only; des_id / side_mapping / group_mapping are not exercised",
                 "Keyvalues '+'/'+=' iterate the live list in the implementation; the model iterates a snapshot (they differ only "
                 "when a block is added to itself, which does not terminate in the implementation for '+=')",
                 "VMF-level indexes (by_class/by_target) touched by Entity.__setitem__ — shared by design, property C07",
@@ -241,8 +241,6 @@ def check_keep_vis(ctx, case, tab):
         if U.export_text(watched) != before:
             ctx.witness('keepvis:visible', f'{type(o).__name__}.copy(keep_vis=False): mutating one side is visible through the other', inp)
             return
-        home, other, o = build(case)
-        cp = o.copy(vmf_file=other if case['across'] else None, keep_vis=False)
 
 
 def export_pair(o, cp):
